@@ -62,7 +62,16 @@ def big_cases(tier, repo, rng):
     for w in (2, 5, 40):
         tl = [[2 + i for i in range(w)]] + [[w + 2] for _ in range(w)] + [[w + 3], []]
         cases.append(("diamond%d" % w, tl, [w + 3]))
-    cases.append(("paper", [[3], [1, 3], []], [3]))                                           # 1->3, 2->1, 2->3
+    cases.append(("paper", [[3], [1, 3], []], [3]))
+    # sparse: a handful of scattered, high-numbered states reach the final state of a big,
+    # otherwise edgeless graph (the result must still come back in ascending order)
+    for n, srcs, fin in ((300, [256, 129, 64, 3, 17], 200), (2000, [512, 33, 1024, 5, 7, 1999], 100),
+                         (5000, [4097, 8, 4999, 2048, 65, 1], 3000)):
+        tl = [[] for _ in range(n)]
+        for k, u in enumerate(srcs):
+            tl[u - 1] = [fin] if k % 2 == 0 else [srcs[k - 1]]
+        cases.append(("sparse%d" % n, tl, [fin]))
+    cases.append(("sparse9", [[], [9], [], [], [], [], [], [2], []], [9]))                                           # 1->3, 2->1, 2->3
     for n in ((60, 200) if tier == "quick" else (60, 200, 600, 1500)):
         tl = [[rng.randrange(1, n + 1) for _ in range(rng.randrange(0, 4))] for _ in range(n)]
         fin = [rng.randrange(1, n + 1) for _ in range(rng.randrange(1, 4))]
